@@ -258,6 +258,22 @@ def q2(prog, rep):
             named = re.search(r"commited|committed", ra + rb) and "total" in ra + rb
             if b is not body or named:
                 (strict if rv[1] in ("Gt", "Lt") else nonstrict).append((rv[1], ra, rb))
+    # the two sides are 3*committed and 2*total: every multiplication in the predicate is one
+    # of these two (whatever the spelling: raw on widened values, checked_mul, in a closure)
+    import formula
+    muls = set()
+    for b in prog.bodies_of(fn):
+        for kind, name, bb, line, roots, dest in arith_sites(b):
+            if name.lower().startswith("mul") or name.endswith("_mul"):
+                muls.add(tuple(sorted(formula.canon(formula.positional(body, r)) for r in roots)))
+    named = {m for m in muls if any(x in ("$1", "$2") for x in m)}
+    inner = {m for m in muls if m not in named}     # closure parameters: only the constants show
+    ok_f = (named == {("$1", "3"), ("$2", "2")} and not inner) or \
+           (not named and sorted(x for m in inner for x in m if x.isdigit()) == ["2", "3"]
+            and len(inner) == 2)
+    rep.check(ok_f, "Q2", "factors:3*committed-vs-2*total",
+              f"the quorum predicate multiplies {sorted(muls)}; `committed > 2/3 total` needs "
+              "exactly 3*committed and 2*total", body.describe())
     rep.check(bool(strict) and not nonstrict, "Q2", "strict-compare",
               "quorum predicate does not strictly compare (a function of) committed against "
               f"(a function of) total (strict: {strict[:2]}, non-strict: {nonstrict[:2]})",
